@@ -71,7 +71,7 @@ func adminLemma(idx int, p string) {
 	if p == "C13" {
 		h.assumeThresholdInvariant()
 	}
-	from := verifrt.NondetString("from", roleCap)
+	from := nondetSubmitter()
 	h.Env.BeginTx()
 	ok, _ := h.callAdmin(idx, from)
 	ws := h.Env.Writes()
@@ -236,7 +236,7 @@ func frameLemma(idx int, p string) {
 	var ok bool
 	if idx < numPrivileged {
 		h.setupAdminState(2)
-		from := verifrt.NondetString("from", roleCap)
+		from := nondetSubmitter()
 		h.Env.BeginTx()
 		ok, _ = h.callAdmin(idx, from)
 	} else {
